@@ -505,6 +505,27 @@ func (bc *BlockChain) insert(block *types.Block) {
 
 	// If the block is better than our head or is on a different chain, force update heads
 	if updateHeads {
+		// The header chain may have run ahead on another branch: drop its number assignments above
+		// the block that becomes the head of all chains
+		for i := block.NumberU64() + 1; ; i++ {
+			if GetCanonicalHash(bc.db, i) == (common.Hash{}) {
+				break
+			}
+			DeleteCanonicalHash(bc.db, i)
+		}
+		// ... and re-point the ones below that still name that other branch
+		for hash, number := block.ParentHash(), block.NumberU64(); number > 1; {
+			number--
+			if GetCanonicalHash(bc.db, number) == hash {
+				break
+			}
+			WriteCanonicalHash(bc.db, hash, number)
+			header := bc.GetHeader(hash, number)
+			if header == nil {
+				break
+			}
+			hash = header.ParentHash
+		}
 		bc.hc.SetCurrentHeader(block.Header())
 
 		if err := WriteHeadFastBlockHash(bc.db, block.Hash()); err != nil {
